@@ -12,7 +12,7 @@ BIN="$VERIF/sim/target/debug/vuejsx-sim"
 T="$(mktemp -d)"; trap 'rm -rf "$T"' EXIT
 run() { # name parts
   local name="$1" parts="$2"
-  for s in random crash preempt siblings duel; do
+  for s in random crash preempt siblings duel gen; do
     for i in $(seq 0 $((parts-1))); do
       "$BIN" hashes --verif "$VERIF" --seed "$SEED" --stratum $s --from 0 --to "$N" --index $i --of $parts > "$T/$name.$s.$i" &
       if (( (i+1) % 16 == 0 )); then wait; fi
